@@ -478,15 +478,16 @@ def run(ctx):
     WITNESS = {"div": ("KF-C11-1", "div_signed_int", "int8_t 7 / -2 ROUND_DOWN must store -4 (V_GT), not -3"),
                "subMul": ("KF-C11-2", "sub_mul_int", "int8_t 0 - 2*64 ROUND_UP must not return V_LT_INF (exact result -128 is representable)"),
                "umod": ("KF-C11-3", "umod_2exp_signed_int", "int8_t/Extended_Number_Policy -1 umod 2^7 must not store 127 (= +inf) with V_EQ"),
-               "isqrt": ("KF-C11-4", "sqrt_signed_int", "int8_t sqrt(64) ROUND_UP must store 8 (V_EQ), not 0 (V_LT)")}
+               "isqrt": ("KF-C11-4", "sqrt_signed_int", "int8_t sqrt(64) ROUND_UP must store 8 (V_EQ), not 0 (V_LT)"),
+               "lcm": ("KF-C11-5", "lcm_gcd_exact", "int8_t lcm(1, -128) ROUND_DOWN must store 127 (V_GT_SUP), not leave the destination unchanged")}
     for name, (kf, site, wit) in WITNESS.items():
         if repairs.get(name) is False:
             # regression: the driver compares with the as-written variant, the violated clauses follow below
             ctx.violation("the repair of %s (%s) is absent from this tree: %s" % (kf, site, wit),
                           {"finding": kf, "site": site, "witness": wit, "replay_cmd": "%s --mode cfg" % h},
                           found_input=True, record={"site": site + ":regression", "tags": []})
-    if len(repairs) != 4:
-        broken.append("harness did not report the four repair measurements: %s" % repairs)
+    if len(repairs) != 5:
+        broken.append("harness did not report the five repair measurements: %s" % repairs)
     bic = [l.split()[3:] for l in cfg_lines if l.startswith("cfg policy BIC ")]
     src_bic = source_policy_flags(os.path.join(REPO, "src", "Coefficient_types.hh"), "Bounded_Integer_Coefficient_Policy")
     if not bic or src_bic is None or bic[0] != src_bic:
